@@ -7,7 +7,9 @@ pub mod c10;
 pub mod c11;
 pub mod c12;
 pub mod c16a;
+pub mod c17;
 pub mod c18;
+pub mod c20;
 pub mod lc;
 
 pub fn get(id: &str, tier: Tier) -> Option<PropertyDef> {
@@ -18,6 +20,7 @@ pub fn get(id: &str, tier: Tier) -> Option<PropertyDef> {
         "C11" => Some(c11::def(tier)),
         "C12" => Some(c12::def(tier)),
         "C16" => Some(crate::engine::PropertyDef { id: "C16", rule: "A: library level incremental index", assumptions: vec![], subs: vec![c16a::def_sub(tier)], workers: 16 }),
+        "C17" => Some(c17::def(tier)),
         "C18" => Some(c18::def(tier)),
         "C02" => Some(c02::def(tier)),
         "C04" => Some(c04::def(tier)),
@@ -25,6 +28,7 @@ pub fn get(id: &str, tier: Tier) -> Option<PropertyDef> {
         "C06" => Some(lc::c06(tier)),
         "C07" => Some(lc::c07(tier)),
         "C08" => Some(lc::c08(tier)),
+        "C20" => Some(c20::def(tier)),
         _ => None,
     }
 }
